@@ -135,6 +135,22 @@ def generate_instances(classes: dict[str, type], pool: Pool) -> list[tuple[str, 
                     out.append((key, f"{shape}/{variant}", exc))
                     continue
                 out.append((key, f"{shape}/{variant}", inst))
+                if extras and variant == 0 and shape in ("symbol", "nested"):
+                    # full cross product of the non-SymPy attribute values (default / non-default in every combination,
+                    # passed explicitly and left out)
+                    choices = []
+                    for f in extras:
+                        if f.name == "phsp_factor":
+                            choices.append([("phsp_factor", c) for c in pool.phsp] + [("phsp_factor", dataclasses.MISSING)])
+                        elif f.name == "name":
+                            choices.append([("name", v) for v in (None, "custom", R"\Gamma_1")] + [("name", dataclasses.MISSING)])
+                    import itertools  # noqa: PLC0415
+                    for ci, combo in enumerate(itertools.product(*choices)):
+                        kw = {k: v for k, v in combo if v is not dataclasses.MISSING}
+                        try:
+                            out.append((key, f"{shape}-attrs/{ci}", cls(*args, **kw)))
+                        except Exception as exc:  # noqa: BLE001
+                            out.append((key, f"{shape}-attrs/{ci}", exc))
     return out
 
 
